@@ -123,7 +123,34 @@ def check_cases(cases: list[dict], rep: Report, known: dict) -> None:
     rep.sample({"a": cases[0]["a"][:100], "b": cases[0]["b"][:100], "checked": "-a, a+b, a-b, a*b, a/b, a**b, a**k for 21 exponents, 16 foreign operands (incl. Fraction, Decimal and an object with catch-all reflected operators) on both sides"})
 
 
+def chains(rep: Report, rng) -> None:
+    """long operator chains: a + b + c + ... is the left-nested tower of two-operand nodes, however long,
+    and one more operator on a deep constructor-built tower adds one more level"""
+    import functools
+    import operator
+    g = gen.Gen(rng, names=("x", "y", "z"))
+    for k in (2, 3, 5, 8, 9, 10, 11, 12, 16, 24, 40):
+        for opname, op, K in (("+", operator.add, X.Add), ("*", operator.mul, X.Multiply), ("-", operator.sub, X.Minus),
+                              ("/", operator.truediv, X.Divide)):
+            terms = [g.expr(rng.randint(0, 1)) for _ in range(k)]
+            got = call(lambda: functools.reduce(op, terms))
+            want = call(lambda: functools.reduce(lambda a, b: K(a, b), terms))
+            rep.evaluations += 1
+            rep.count("operator-chains", f"{opname}:{k}")
+            if got[0] != "ok" or want[0] != "ok" or not (got[1] == want[1]) or repr(got[1]) != repr(want[1]):
+                rep.violation(f"a chain of {k} terms with {opname} is not the left-nested tower of {K.__name__} nodes: "
+                              f"{repr(got[1])[:160] if got[0] == 'ok' else got} vs {repr(want[1])[:160] if want[0] == 'ok' else want}",
+                              {"operator": opname, "terms": k})
+        # mixed chain a + b * c - d ... against the explicit constructors
+        terms = [g.expr(0) for _ in range(k)]
+        got = call(lambda: functools.reduce(lambda a, b: (a + b) * b - a, terms))
+        want = call(lambda: functools.reduce(lambda a, b: X.Minus(X.Multiply(X.Add(a, b), b), a), terms[: min(k, 12)])) if k <= 12 else None
+        if want is not None and (got[0] != "ok" or want[0] != "ok" or repr(got[1]) != repr(want[1])):
+            rep.violation(f"a mixed operator chain of {k} terms differs from the constructors", {"terms": k})
+
+
 def run(rep: Report, rng, tier: str, known: dict, search: bool = False) -> None:
+    chains(rep, rng)
     check_cases(gen_cases(rng, tier), rep, known)
 
 
